@@ -16,7 +16,11 @@
  * schedule (one op per line):
  *   Server <transport 1=shm 2=socket> <umask> <policy 0=first ready 1=last ready 2..=seeded>
  *   Client <k> <uid> <gid> <cvar 0: real=eff=saved, 1: only effective ids change> <kind>
- *          <ret> <has_aset> <auid> <agid> <amode>
+ *          <ret> <has_aset> <auid> <agid> <amode> [<plant>]
+ *          plant = 1: while the server sets up this client's connection, somebody else who may write into the
+ *          connection directory (it is handed to the peer's group before the files are made) creates the request
+ *          data file first, world-accessible, and keeps it open.  The server must not make that file the channel:
+ *          event Plant [k] -> [adopted]; the planter removes its file again if the server refused it.
  *   Run
  *   Reset
  * usage: h_ipc_admit <schedule> <trace-out>
@@ -51,7 +55,7 @@ static long n_calls, n_obs;
 
 #define MAXC 32
 struct client {
-	int k, uid, gid, cvar, kind, ret, has, auid, agid, amode;
+	int k, uid, gid, cvar, kind, ret, has, auid, agid, amode, plant;
 	pid_t pid;
 	int rfd, wfd;
 	char buf[512]; int blen;
@@ -63,6 +67,12 @@ static int ncl;
 static int k_of_pid(pid_t p)
 {
 	for (int i = 0; i < ncl; i++) if (cls[i].pid == p) return cls[i].k;
+	return 0;
+}
+
+static int plant_for(int k)
+{
+	for (int i = 0; i < ncl; i++) if (cls[i].k == k) return cls[i].plant;
 	return 0;
 }
 
@@ -153,11 +163,33 @@ static void observe(int force)
 	ret __real_##name params; \
 	ret __wrap_##name params { ret r_ = __real_##name args; AFTER(); return r_; }
 
+static int disp_k;
+static int plant_for(int k);
+static int planted_fd = -1;
+int __real_fchown(int fd, uid_t u, gid_t g);
+int __real_fchmod(int fd, mode_t m);
+int __real_unlink(const char *p);
 int __real_open(const char *p, int fl, ...);
 int __wrap_open(const char *p, int fl, ...)
 {
 	mode_t m = 0;
 	if (fl & (O_CREAT | O_TMPFILE)) { va_list ap; va_start(ap, fl); m = va_arg(ap, int); va_end(ap); }
+	const char *base = strrchr(p, '/');
+	base = base ? base + 1 : p;
+	if (obs_on && !in_obs && getpid() == srv_pid && (fl & O_CREAT) && planted_fd < 0 && plant_for(disp_k) &&
+	    !strncmp(base, "qb-request-", 11) && ends_with(base, "-data")) {
+		/* the other party gets there first */
+		struct stat s1, s2;
+		int k = disp_k, adopted = 0;
+		planted_fd = __real_open(p, O_CREAT | O_EXCL | O_RDWR, 0666);
+		if (planted_fd >= 0) { (void)!__real_fchown(planted_fd, 4243, (gid_t)-1); (void)!__real_fchmod(planted_fd, 0666); }
+		int r = __real_open(p, fl, m);
+		if (planted_fd >= 0 && r >= 0 && fstat(planted_fd, &s1) == 0 && fstat(r, &s2) == 0 && s1.st_ino == s2.st_ino) adopted = 1;
+		if (planted_fd >= 0 && !adopted) { int e_ = errno; __real_unlink(p); errno = e_; }
+		{ int e_ = errno; vt_ev("Plant"); vt_i(k); vt_res(); vt_i(planted_fd >= 0 ? adopted : -1); vt_end(); errno = e_; }
+		AFTER();
+		return r;
+	}
 	int r = __real_open(p, fl, m);
 	AFTER();
 	return r;
@@ -207,7 +239,7 @@ static struct job jobs[256];
 static int njobs;
 static int policy;
 static unsigned long rstate;
-static int disp_k;          /* client whose accept callback ran during the current dispatch */
+/* disp_k (declared above): client whose accept callback ran during the current dispatch */
 
 static int32_t ph_job_add(enum qb_loop_priority p, void *data, qb_loop_job_dispatch_fn fn)
 {
@@ -555,6 +587,7 @@ static void run_scenario(void)
 	run_jobs();
 	observe(1);
 	for (int i = 0; i < ncl; i++) { __real_close(cls[i].rfd); __real_close(cls[i].wfd); }
+	if (planted_fd >= 0) { __real_close(planted_fd); planted_fd = -1; }
 	/* leave nothing behind for the next scenario (and nothing at all when /dev/shm is shared) */
 	DIR *d = opendir("/dev/shm");
 	struct dirent *de;
@@ -599,6 +632,7 @@ int main(int argc, char **argv)
 			c->k = vt_argi(&L, 1); c->uid = vt_argi(&L, 2); c->gid = vt_argi(&L, 3); c->cvar = vt_argi(&L, 4);
 			c->kind = vt_argi(&L, 5); c->ret = vt_argi(&L, 6); c->has = vt_argi(&L, 7);
 			c->auid = vt_argi(&L, 8); c->agid = vt_argi(&L, 9); c->amode = vt_argi(&L, 10);
+			c->plant = L.n > 11 ? (int)vt_argi(&L, 11) : 0;
 		} else if (!strcmp(op, "Run")) run_scenario();
 		else { fprintf(stderr, "h_ipc_admit: unknown op %s\n", op); return 2; }
 	}
